@@ -156,6 +156,39 @@ class C09(PropBase):
             for _ in range(ns):
                 q = self.gt_search(rng, v, items)
                 out.append(Case('find_list', [items, q], 'find', {}))
+        # two '>' with '*' between them: still ONE answer per combination of the segments before the FIRST '>' - the entry whose
+        # remaining segments are greatest - however many values the '*' levels take below it
+        from props.c01 import natural
+        deep = [t for t in v.order if len(v.types[t]) >= 6]
+        for _ in range(12 if tier == 'quick' else 200):
+            if not deep:
+                break
+            t = rng.choice(deep)
+            base = v.sid(t, rng).split('/')
+            if any(ch in '/'.join(base) for ch in '*>,?:\n') or not natural(v, '/'.join(base)):
+                continue
+            n = len(base)
+            i = rng.randrange(2, n - 3)
+            j = rng.randrange(i + 2, n - 1)
+            pool = {}
+            for p_ in range(i, j + 1):
+                vals = [x for x in v.concrete_values(v.types[t][p_][1], rng) if x and not any(ch in x for ch in '*>,?:\n/')]
+                pool[p_] = sorted(set(vals + [base[p_]]))[:3]
+            items = set()
+            for _k in range(rng.randint(5, 9)):
+                e = list(base)
+                for p_ in range(i, j + 1):
+                    e[p_] = rng.choice(pool[p_])
+                if natural(v, '/'.join(e)) and natural(v, '/'.join(e))[0] == t:
+                    items.add('/'.join(e))
+            items = sorted(items)
+            rng.shuffle(items)
+            q = list(base)
+            q[i] = '>'; q[j] = '>'
+            for p_ in range(i + 1, j):
+                q[p_] = '*'
+            if len(items) >= 2:
+                out.append(Case('find_list', [items, '/'.join(q)], 'find', {}))
         out.extend(self.fs_cases(rng, ctx, tier, v))
         return out
     def phase2(self, rng, ctx, cases, impl_out, tier):
